@@ -68,50 +68,54 @@ Definition len_of (v : value) : nat :=
   | _ => 0
   end.
 
+(* string <-> number coercion: one route in both orders (integer numeral first, then float) *)
+Definition coerce_str (s : string) : tri (option value) :=
+  match str_to_int s with
+  | Some z => TOk (Some (VInt z))
+  | None => match str_to_float orc s with
+            | TOk f => TOk (Some (VFloat f))
+            | TErr => TOk None
+            | TMiss w => TMiss w
+            end
+  end.
+
+Definition coerce_pair (a b : value) : tri (option (value * value)) :=
+  match a, b with
+  | VStr s, (VInt _ | VFloat _) =>
+      match coerce_str s with TOk (Some a') => TOk (Some (a', b)) | TOk None => TOk None | TErr => TErr | TMiss w => TMiss w end
+  | (VInt _ | VFloat _), VStr s =>
+      match coerce_str s with TOk (Some b') => TOk (Some (a, b')) | TOk None => TOk None | TErr => TErr | TMiss w => TMiss w end
+  | _, _ => TOk (Some (a, b))
+  end.
+
+Definition bool_equal (a b : value) : tri bool :=
+  match try_to_bool orc len_of a, try_to_bool orc len_of b with
+  | TOk x, TOk y => TOk (Bool.eqb x y)
+  | TMiss w, _ | _, TMiss w => TMiss w
+  | _, _ => TOk false
+  end.
+
+(* the comparison once both sides are past the string coercion *)
+Definition equal_core (a b : value) : tri bool :=
+  match a, b with
+  | VInt x, VInt y => TOk (Z.eqb x y)
+  | VFloat x, VFloat y => TOk (feqb x y)
+  | VInt x, VFloat y => TOk (feqb (of_int x) y)
+  | VFloat x, VInt y => TOk (feqb x (of_int y))
+  | VBool _, _ | _, VBool _ => bool_equal a b
+  | _, _ => deep_equal 64 a b
+  end.
+
 (* equal(lhsV, rhsV) on the values the two reflect.Values denote *)
 Definition equal (a b : value) : tri bool :=
   if is_nil a && is_nil b then TOk true
   else if is_nil a || is_nil b then TOk false
   else
-    (* string <-> number coercion: one route in both orders (integer numeral first, then float) *)
-    let coerce (s : string) : tri (option value) :=
-      match str_to_int s with
-      | Some z => TOk (Some (VInt z))
-      | None => match str_to_float orc s with
-                | TOk f => TOk (Some (VFloat f))
-                | TErr => TOk None
-                | TMiss w => TMiss w
-                end
-      end in
-    let pair : tri (option (value * value)) :=
-      match a, b with
-      | VStr s, (VInt _ | VFloat _) =>
-          match coerce s with TOk (Some a') => TOk (Some (a', b)) | TOk None => TOk None | TErr => TErr | TMiss w => TMiss w end
-      | (VInt _ | VFloat _), VStr s =>
-          match coerce s with TOk (Some b') => TOk (Some (a, b')) | TOk None => TOk None | TErr => TErr | TMiss w => TMiss w end
-      | _, _ => TOk (Some (a, b))
-      end in
-    match pair with
+    match coerce_pair a b with
     | TMiss w => TMiss w
     | TErr => TOk false
     | TOk None => TOk false
-    | TOk (Some (a, b)) =>
-      match a, b with
-      | VInt x, VInt y => TOk (Z.eqb x y)
-      | VFloat x, VFloat y => TOk (feqb x y)
-      | VInt x, VFloat y => TOk (feqb (of_int x) y)
-      | VFloat x, VInt y => TOk (feqb x (of_int y))
-      | _, _ =>
-        match a, b with
-        | VBool _, _ | _, VBool _ =>
-            match try_to_bool orc len_of a, try_to_bool orc len_of b with
-            | TOk x, TOk y => TOk (Bool.eqb x y)
-            | TMiss w, _ | _, TMiss w => TMiss w
-            | _, _ => TOk false
-            end
-        | _, _ => deep_equal 64 a b
-        end
-      end
+    | TOk (Some (a', b')) => equal_core a' b'
     end.
 
 (* fmt.Sprint of a value as toString uses it: slices as [a b], maps as map[k:v ...] with keys in
